@@ -273,9 +273,13 @@ func runC20(seed int64, n int, dir string, tier string) *Report {
 		final, other := entryName(id), entryName(otherID)
 		docfile := filepath.Join(base, "new.pb")
 		_ = os.WriteFile(docfile, newB, 0o644)
+		linked := overwrite && round%4 == 3 // the existing entry is a symbolic link to a regular file holding the old document
 		setup := func(d string) {
 			_ = os.WriteFile(filepath.Join(d, other), othB, 0o644)
-			if overwrite {
+			if linked {
+				_ = os.WriteFile(filepath.Join(d, "linked-"+final), oldB, 0o644)
+				_ = os.Symlink("linked-"+final, filepath.Join(d, final))
+			} else if overwrite {
 				_ = os.WriteFile(filepath.Join(d, final), oldB, 0o644)
 			}
 		}
@@ -320,7 +324,7 @@ func runC20(seed int64, n int, dir string, tier string) *Report {
 				c := "(CTrace " + coqfmt.List(kinds, func(k int) string { return strconv.Itoa(k) }) + ")"
 				cf.Add(c)
 				rep.NoteCase(c, overwrite, map[string]any{"kind": "syscall trace of a real Store", "overwrite": overwrite, "calls": lines})
-				rep.Count("trace=" + fmt.Sprint(kinds) + " noclobber=" + noclobber)
+				rep.Count(fmt.Sprintf("trace=%v noclobber=%s linked-entry=%v", kinds, noclobber, linked))
 			}
 			// search along the OBSERVED call sequence: if the entry itself is opened with O_TRUNC and
 			// written in place, every prefix of the data is a possible post-crash content of the entry
@@ -337,7 +341,7 @@ func runC20(seed int64, n int, dir string, tier string) *Report {
 					if r.Outcome == "ok" {
 						raw, _ := decodeB64(r.Doc)
 						if string(raw) != string(bigB) && string(raw) != string(oldB) {
-							rep.Fail(Failure{What: "after a crash during Store, Retrieve returned a truncated document (neither the previous nor the new one, and no error)", Detail: fmt.Sprintf("entry written in place (open O_TRUNC or O_EXCL on the entry + write): crash after %d of %d bytes", len(p), len(bigB)), Input: map[string]any{"overwrite": overwrite, "noclobber": noclobber, "id": id, "entry_prefix_bytes": len(p), "observed_calls": lines}})
+							rep.Fail(Failure{What: "after a crash during Store, Retrieve returned a truncated document (neither the previous nor the new one, and no error)", Detail: fmt.Sprintf("entry written in place (open O_TRUNC or O_EXCL on the entry + write): crash after %d of %d bytes", len(p), len(bigB)), Input: map[string]any{"overwrite": overwrite, "noclobber": noclobber, "entry_is_symlink": linked, "id": id, "entry_prefix_bytes": len(p), "observed_calls": lines}})
 							_ = os.RemoveAll(vd)
 							break
 						}
